@@ -508,7 +508,9 @@ def run(chk: Check) -> None:
             for r in reasons:
                 wher, dom, op, why = (r.split("|") + ["", "", "", ""])[:4]
                 concrete += 1
-                chk.finding({"kind": "op_not_in_opset", "op_type": op, "why": why.split(" ")[0],
+                w0 = why.split(" ")[0]
+                kind = "input_type_illegal" if w0 in ("input-type", "type-variable") else "op_not_in_opset"
+                chk.finding({"kind": kind, "op_type": op, "why": w0,
                              "context": ctx_, "component": comp, "opset": v},
                             f"{progs.describe(ex.desc)} exported at opset {v}: {op} {why}",
                             {"program": ex.desc, "config": ex.cfg, "reasons": reasons[:10]})
@@ -531,8 +533,10 @@ def run(chk: Check) -> None:
                 key = {"kind": "oracle_rejects", "oracle": f["oracle"], "context": ctx_, "component": comp,
                        "opset": v}
                 if blamed:
-                    key = {"kind": "op_not_in_opset", "op_type": blamed[0], "why": "oracle", "context": ctx_,
-                           "component": comp, "opset": v, "oracle": f["oracle"]}
+                    typed = any(r.split("|")[2] == blamed[0] and
+                                r.split("|")[3].split(" ")[0] in ("input-type", "type-variable") for r in reasons)
+                    key = {"kind": "input_type_illegal" if typed else "op_not_in_opset", "op_type": blamed[0],
+                           "why": "oracle", "context": ctx_, "component": comp, "opset": v, "oracle": f["oracle"]}
                 concrete += 1
                 chk.finding(key, f"{f['oracle']} rejects {progs.describe(ex.desc)} at opset {v}: {f['msg'][:160]}",
                             {"program": ex.desc, "config": ex.cfg, "oracle": f, "checker_reasons": reasons[:5]})
